@@ -957,6 +957,11 @@ def site_corpus_cases():
         # what keeps an unreachable!/unwrap/index from being reached (e.g. s[:a:b: + c])
         for suf in SITE_CONTINUATIONS:
             out.append(pfam.Case(src + suf, "F-err-site-continued", note=site))
+    # error sites inside helpers (check_single_expr, check_assign_stmt, check_field_list) are shared by several
+    # callers: one rejected input per caller (found missing by the mutation survey)
+    sh = os.path.join(vlib.ROOT, "corpus", "error_shared_sites.json")
+    if os.path.exists(sh):
+        out += [pfam.Case(src, "F-err-shared-site") for src in json.load(open(sh))]
     return out
 
 
